@@ -67,6 +67,7 @@ type request struct {
 	opidForm   string // "" or "non-canonical" / "empty"
 	hdrShape   string // "plain", or what is special about the header block (empty-valued pair last, ...)
 	label      string // probes: overrides the kind name in signatures
+	class      string // probes: the situation the request is in (part of some signatures)
 	rewritten  bool   // a reply arrived whose op id is this request's op id in another spelling
 	foreign    bool   // HTTP: the response frame carried another request's op id
 	taints     bool   // leaves a stream connection in an undefined state
@@ -111,6 +112,9 @@ type plan struct {
 	err   error
 	ret   interface{}
 	delay time.Duration // the handler takes this long (builds a backlog on a NATS server)
+	// hdrRoom-1 (when hdrRoom > 0): the handler pads its response headers so that
+	// the reply's header block ends that many bytes below the NATS output limit
+	hdrRoom int
 }
 
 var (
@@ -132,6 +136,9 @@ func behave(c *e2e.Call) *e2e.Outcome {
 	p := v.(*plan)
 	if p.delay > 0 {
 		time.Sleep(p.delay)
+	}
+	if p.hdrRoom > 0 {
+		padResponseHeaders(c, p.hdrRoom-1)
 	}
 	if p.err == nil && p.ret == nil {
 		return nil
